@@ -271,6 +271,10 @@ def _walk(o, h, path, seen):
         up(b'Mask(')
         _walk(o.data, h, path + '.data', seen)
         _walk(o.bbox, h, path + '.bbox', seen)
+        for k in sorted(vars(o)):                 # any further state the mask object keeps (e.g. its zero-weight mask, caches)
+            if k not in ('data', 'bbox'):
+                up(k.encode())
+                _walk(vars(o)[k], h, path + '.' + k, seen)
         up(b')')
     elif isinstance(o, slice):
         up(f'slice({o.start!r},{o.stop!r},{o.step!r})'.encode())
